@@ -131,6 +131,60 @@ PROPS["C09"] = {
     "assumptions": ["HashMap/HashSet iteration order is modelled as insertion order (Prefixes maps are compared as sets)"],
 }
 
+PROPS["C02"] = {
+    "claim": "parsing (xmlparser tokenizer + xot DocumentBuilder, real code) yields what the text denotes: character data "
+             "against an independent reference decoder, attribute-value normalisation, CDATA/text merging, namespace scoping "
+             "of prefixed/unprefixed names, declarations on the element that wrote them, xml:id normalisation and lookup, "
+             "parse_fragment vs wrapped parse",
+    "harnesses": [
+        H("h_c02_content_kernel", {"N": 3}, {"N": 5}, shards={"quick": shard_choose("len", 4), "thorough": shard_choose("len", 6)}),
+        H("h_c02_text", shards={"quick": shard_choose("k1", 7), "thorough": shard_choose("k1", 7)}),
+        H("h_c02_attr", shards={"quick": shard_choose("k1", 6), "thorough": shard_choose("k1", 6)}),
+        H("h_c02_names", shards={"quick": shard_choose("c0", 8), "thorough": shard_choose("c0", 8)}),
+        H("h_c02_fragment", shards={"quick": shard_choose("k", 8), "thorough": shard_choose("k", 8)}),
+        H("h_c02_xmlid", {"N": 3}, {"N": 4}, shards={"quick": shard_choose("len", 4), "thorough": shard_choose("len", 5)}),
+    ],
+    "bounds": {"quick": "character-data spellings of <=3 arbitrary chars at the kernel; two-piece spellings (literal char, entity, "
+                        "char reference, CR LF, CDATA) end to end in text and in both quote styles of attributes; 8x8 declaration "
+                        "layouts x 3 element prefixes x 3 attribute prefixes; 8 fragment templates; xml:id values of <=3 chars",
+               "thorough": "<=5 chars at the kernel, xml:id <=4"},
+    "outside": "parse_bytes / encodings / BOM / XML declaration (encoding_rs and xhtmlchardet tables are not encoded); documents "
+               "longer than the templates",
+    "assumptions": ["the xmlparser 0.13.6 tokenizer is interpreted from its MIR like xot itself, not modelled"],
+}
+
+PROPS["C03"] = {
+    "claim": "the parse entry points never reach a panic edge and reject ill-formed input, on the real tokenizer + builder code",
+    "harnesses": [
+        H("h_c03_content_kernel", {"N": 3}, {"N": 5}, shards={"quick": shard_choose("len", 4), "thorough": shard_choose("len", 6)}),
+        H("h_c03_tags", {"PIECES": 3}, {"PIECES": 4}, shards={"quick": shard_product(("fragment", 2), ("k0", 7)), "thorough": shard_product(("fragment", 2), ("k0", 7), ("k1", 7))}),
+        H("h_c03_rejects", shards={"quick": shard_choose("k", 12), "thorough": shard_choose("k", 12)}),
+        H("h_c03_fragment_scope", shards={"quick": shard_choose("shape", 3), "thorough": shard_choose("shape", 3)}),
+        H("h_c03_total", {"N": 2}, {"N": 3}, shards={"quick": shard_product(("pre", 8), ("fragment", 2)), "thorough": shard_product(("pre", 8), ("fragment", 2))}),
+    ],
+    "bounds": {"quick": "character data of <=3 arbitrary chars with any base offset <=2^40; every sequence of 3 tag/text/comment "
+                        "pieces in document and fragment mode (accepted ones must validate and round-trip); 12 ill-formedness "
+                        "templates; 8 markup prefixes followed by <=2 arbitrary ASCII chars for totality",
+               "thorough": "<=5 chars, 4 pieces, 3 free chars"},
+    "outside": "arbitrary byte sequences / parse_bytes (the unknown-encoding panic is documented in DESIGN but not reachable "
+               "here); inputs longer than the bounds",
+    "assumptions": [],
+}
+
+PROPS["C17"] = {
+    "claim": "every recorded span slices the source to the spelling of its item, for symbolic contents and shifted offsets; "
+             "every ParseError span lies inside the source on char boundaries",
+    "harnesses": [
+        H("h_c17_spans", shards={"quick": shard_product(("group", 3), ("pad", 3), ("fragment", 2)), "thorough": shard_product(("group", 3), ("pad", 3), ("fragment", 2))}),
+        H("h_c17_error_spans", shards={"quick": shard_choose("k", 9), "thorough": shard_choose("k", 9)}),
+    ],
+    "bounds": {"quick": "one document template containing every span kind (prefixed element, 2 attributes, text, comment, PI, "
+                        "text+CDATA+text run, empty element), contents symbolic two at a time (1 char each), 3 offset shifts, parse and "
+                        "parse_fragment; 9 error templates x 3 shifts", "thorough": "same"},
+    "outside": "documents other than the templates",
+    "assumptions": [],
+}
+
 PROPS["DBG"] = {
     "claim": "debug probes", "harnesses": [H("h_probe_tree"), H("h_probe_tostring"), H("h_probe_parse")],
     "bounds": {"quick": "-", "thorough": "-"}, "outside": "", "assumptions": [],
